@@ -89,6 +89,7 @@ func c06R1(p *core.Program, r *core.Report) {
 		if f.Parent == nil {
 			f = unit(p, f) // a predicate or another unexported helper extracted from the dispatch loop is seen in place
 		}
+		cs.Call = callInView(f, cs.Call) // the view may show the call in another spelling (a method-like function as a method)
 		info := f.Info()
 		g := graph(f)
 		at := g.PointOf(cs.Call)
